@@ -224,24 +224,94 @@ func (c *candidate) signature() string {
 
 var best = map[string]*candidate{} // oracle|kind set -> first candidate
 
-// isSubsequence reports whether the operations of m occur in ops in the same order.
-func isSubsequence(m, ops []*token) bool {
-	i := 0
+// absOp is an operation with the validator replaced by a role (order of first appearance) and a
+// re-signed A counted as A; claims keep their name (role -1).
+type absOp struct {
+	role int
+	kind string
+}
+
+func normKind(t *token) string {
+	if t.kind == "A~" {
+		return "A"
+	}
+	return t.kind
+}
+
+func abstractOf(ops []*token) []absOp {
+	roles := map[int]int{}
+	var out []absOp
 	for _, t := range ops {
-		if i < len(m) && m[i] == t {
-			i++
+		if t.vote == nil {
+			out = append(out, absOp{-1, t.name})
+			continue
+		}
+		if _, ok := roles[t.val]; !ok {
+			roles[t.val] = len(roles)
+		}
+		out = append(out, absOp{roles[t.val], normKind(t)})
+	}
+	return out
+}
+
+var perms = map[int][][]int{}
+
+func permutations(n int) [][]int {
+	if p, ok := perms[n]; ok {
+		return p
+	}
+	var out [][]int
+	var rec func(cur []int, used int)
+	rec = func(cur []int, used int) {
+		if len(cur) == n {
+			out = append(out, append([]int(nil), cur...))
+			return
+		}
+		for v := 0; v < n; v++ {
+			if used>>uint(v)&1 == 0 {
+				rec(append(cur, v), used|1<<uint(v))
+			}
 		}
 	}
-	return i == len(m)
+	rec(nil, 0)
+	perms[n] = out
+	return out
+}
+
+// containsAbstract reports whether, for some assignment of distinct validators to the roles of
+// abs, the operations of abs occur in ops in the same order.
+func containsAbstract(abs []absOp, ops []*token, n int) bool {
+	for _, perm := range permutations(n) {
+		i := 0
+		for _, t := range ops {
+			if i == len(abs) {
+				break
+			}
+			a := abs[i]
+			if t.vote == nil {
+				if a.role == -1 && a.kind == t.name {
+					i++
+				}
+			} else if a.role >= 0 && t.val == perm[a.role] && normKind(t) == a.kind {
+				i++
+			}
+		}
+		if i == len(abs) {
+			return true
+		}
+	}
+	return false
 }
 
 const maxMinimisationsPerJob = 400
 
 // digest turns the raw violations of a finished search (BFS order: shortest histories first) into
-// candidates: a violating history that contains, as a subsequence, an already minimised violating
-// history of the same oracle is attributed to it; any other is minimised by replay.
+// candidates: a violating history that contains (in order, up to a renaming of the validators and
+// with a re-signed A counted as A) an already minimised violating history of the same oracle is
+// attributed to it; any other is minimised by replay on fresh objects.
 func (s *search) digest() {
 	var mins []*candidate
+	var forms [][]absOp
 	r.Add("violating_transitions", int64(len(s.viols)))
 	minimised := 0
 next:
@@ -250,8 +320,8 @@ next:
 		if v.tok >= 0 {
 			ops = append(ops, s.j.toks[v.tok])
 		}
-		for _, m := range mins {
-			if m.oracle == v.f.oracle && isSubsequence(m.ops, ops) {
+		for i, m := range mins {
+			if m.oracle == v.f.oracle && containsAbstract(forms[i], ops, s.j.n) {
 				m.count++
 				continue next
 			}
@@ -271,6 +341,7 @@ next:
 			r.Add("violations_not_minimised", 1)
 		}
 		mins = append(mins, &candidate{vecIdx: s.j.vecIdx, typIdx: s.j.typIdx, j: s.j, ops: ops, oracle: v.f.oracle, detail: detail, count: 1})
+		forms = append(forms, abstractOf(ops))
 	}
 	for _, c := range mins {
 		k := c.oracle + "|" + kindSet(c.ops)
